@@ -31,12 +31,15 @@ TYPE_CLASS = {"secp256r1": (ec.EllipticCurvePrivateKey, 256), "secp384r1": (ec.E
               "secp521r1": (ec.EllipticCurvePrivateKey, 521), "ed25519": (ed25519.Ed25519PrivateKey, None), "ed448": (ed448.Ed448PrivateKey, None)}
 
 
+PREFIXES = ["k", "device.v2", "sub.dir/app.release.signing"]       # the output prefix is a free-form path prefix
+
+
 # -- keys --------------------------------------------------------------------------------------------
 
 def keys_cases(tier):
     out = []
     for i, (t, e, pf, pubf, rep) in enumerate(itertools.product(TYPES, ("pem", "der"), ("pkcs8", "pkcs1"), ("default", "pkcs1"), range(3))):
-        out.append({"type": t, "enc": e, "priv": pf, "pub": pubf, "rep": rep, "i": i})
+        out.append({"type": t, "enc": e, "priv": pf, "pub": pubf, "rep": rep, "i": i, "prefix": PREFIXES[rep]})
     return out
 
 
@@ -46,7 +49,8 @@ def run_keys(case, agg):
     key = h8("c15k", case)
     label = f"keys type={case['type']} encoding={case['enc']} private={case['priv']} public={case['pub']}"
     with fresh_dir("c15k") as d:
-        prefix = os.path.join(d, "k")
+        prefix = os.path.join(d, case.get("prefix", "k"))
+        os.makedirs(os.path.dirname(prefix), exist_ok=True)
         try:
             if seed_slice(case["i"], 17):
                 from .. import impl
@@ -60,7 +64,7 @@ def run_keys(case, agg):
                 cmd_keys.main(output_file=prefix, type=case["type"], encoding=case["enc"], private_format=case["priv"],
                               public_format=case["pub"], encryption="none")
         except GeneratorError as e:
-            left = [f for f in os.listdir(d) if f.startswith("k_")]
+            left = [os.path.join(r, f) for r, _, fs in os.walk(d) for f in fs if not f.endswith(".log")]
             if left:
                 agg.viol("C15:keys/error-left-files", f"{label}: reported an error but left {left}")
             elif "Traceback" in str(e) and "GeneratorError" not in str(e) and "Invalid key generator" not in str(e):
@@ -73,7 +77,7 @@ def run_keys(case, agg):
             return
         pp, pu = f"{prefix}_priv.{case['enc']}", f"{prefix}_pub.{case['enc']}"
         if not (os.path.exists(pp) and os.path.exists(pu)):
-            agg.viol("C15:keys/missing-file", f"{label}: completed without writing both files ({os.listdir(d)})")
+            agg.viol("C15:keys/missing-file", f"{label} prefix={case.get('prefix')!r}: completed without writing <prefix>_priv/_pub.<encoding> (found {[f for r, _, fs in os.walk(d) for f in fs]})")
             return
         try:
             pb, ub = open(pp, "rb").read(), open(pu, "rb").read()
